@@ -163,7 +163,14 @@ fn check_tree(db: &LayoutDb, tree: &[(String, Node)], idx: usize, seed: u64, sin
 	let vs = db.versions_of_regime(reg);
 	let (a, b) = vs[(idx * 13 + seed as usize) % vs.len()];
 	let ver = [a, b, 0];
-	let beh = simple_beh_gecko(reg, &["single", "none", "none", "none"], idx % 2, 0, 0);
+	let mut beh = simple_beh_gecko(reg, &["single", "none", "none", "none"], idx % 2, 0, 0);
+	if idx % 4 == 3 {
+		// a replay cut short (no Game End) keeps its metadata too
+		beh.file_end = "none".into();
+		beh.hist.pop();
+		beh.steps.pop();
+		beh.fin.gend = 0;
+	}
 	let mut o = GenOpts::new(seed ^ idx as u64, ver);
 	let body = ubjson_body(tree);
 	o.meta_body = Some(body.clone());
@@ -263,6 +270,14 @@ pub fn cmd_ubjson(a: &Args) {
 			});
 		}
 	});
+	// chains of nested maps up to the deepest nesting both formats can hold (the metadata map is level 1; 127 levels)
+	for depth in [100usize, 120, 125, 126] {
+		let mut t: Vec<(String, Node)> = vec![("leaf".to_string(), Node::I(depth as i32))];
+		for d in 0..depth {
+			t = vec![(format!("n{}", d % 10), Node::M(t))];
+		}
+		check_tree(&db, &t, depth, seed, &sink, true);
+	}
 	// absence of metadata
 	for (i, reg) in ["A", "B", "C"].iter().enumerate() {
 		let vs = db.versions_of_regime(reg);
@@ -484,7 +499,8 @@ fn check_arch(db: &LayoutDb, x: &Arch, idx: usize, seed: u64, sink: &Sink) {
 		};
 		bytes.truncate(at);
 	}
-	let res = real::read_slpp(&bytes, false);
+	// (every other archive arrives in short reads)
+	let res = if idx % 2 == 0 { real::read_slpp(&bytes, false) } else { real::read_slpp_frag(&bytes, false, crate::stream::Frag::Random(idx as u64)) };
 	match (&res, x.outcome.as_str()) {
 		(Outcome::Ok(g3), "ok") => match real::write_slp(g3) {
 			Outcome::Ok(w) => {
